@@ -160,7 +160,8 @@ class TermEval:
         if h == "mcall":
             recv = self.ev(t[2])
             args = [self.ev(x) for x in t[3]]
-            if t[1] in ("count", "index", "lower", "upper", "strip", "format", "startswith", "endswith", "indices"):
+            if t[1] in ("count", "index", "lower", "upper", "strip", "lstrip", "rstrip", "format", "startswith", "endswith", "indices",
+                        "isdigit", "isnumeric", "isdecimal", "isalpha", "isalnum", "isspace", "replace", "split", "join", "find"):
                 return getattr(recv, t[1])(*args)
             raise Unknown("method %s" % t[1])
         raise Unknown(show(t))
